@@ -103,6 +103,11 @@ func (server *SugarDB) Flush(database int) {
 		return
 	}
 
+	// A database that was never created holds nothing to flush (its caches do not exist either).
+	if server.store[database] == nil {
+		return
+	}
+
 	// Deduct the memory accounted for the flushed keys.
 	server.releaseDatabaseMemory(database)
 	// Clear db store.
